@@ -95,7 +95,8 @@ def setup(tier):
 
 def plan(tier):
     n = 1000 if tier == "quick" else 70000
-    return [(c, n) for c in CLASSES]
+    return [(c, n) for c in CLASSES] + \
+        [("many", 28 if tier == "quick" else 700)]
 
 
 def gen(cls, idx, rng, tier):
@@ -148,6 +149,39 @@ def gen(cls, idx, rng, tier):
         kw = dict(effort=rng.choice([0, 0.1]), seed=rng.randrange(1 << 30),
                   stop_after=None) if placer.startswith("sa-") else \
             dict(seed=rng.randrange(1 << 30)) if placer == "rand" else {}
+        return dict(machine=m, vertices=vs, nets=nets_, constraints=[],
+                    placer=placer, kw=kw, easy=True)
+    if cls == "many":
+        # netlists of thousands of vertices (a chain, a star and a tree, so
+        # that whatever walks the netlist walks far) on machines of hundreds
+        # of chips
+        w, h = rng.randint(10, 24), rng.randint(10, 24)
+        c = rng.choice([4, 18])
+        dead = sorted({(rng.randrange(w), rng.randrange(h))
+                       for _ in range(rng.randint(0, 6))})
+        m = dict(w=w, h=h, res={"Cores": c}, exc={}, dead_chips=dead,
+                 dead_links=[])
+        nv = min((w * h - len(dead)) * c,
+                 rng.choice([600, 1100, 1500, 2500, 4000]))
+        vs = [(i, {"Cores": 1}) for i in range(nv)]
+        shape = rng.choice(["chain", "star", "tree", "mixed"])
+        nets_ = []
+        if shape in ("chain", "mixed"):
+            nets_ += [(i, [i + 1], 1.0) for i in range(nv - 1)]
+        if shape in ("star", "mixed"):
+            nets_ += [(0, list(range(1, nv, max(1, nv // 700))), 0.5)]
+        if shape == "tree":
+            nets_ += [(i, [j for j in (2 * i + 1, 2 * i + 2) if j < nv], 2.0)
+                      for i in range((nv - 1) // 2)]
+        placer = PLACERS[idx % len(PLACERS)]
+        if placer == "sa-py":
+            placer = rng.choice(["sequential", "breadth_first", "hilbert",
+                                 "rcm"])
+        kw = dict(effort=0, seed=rng.randrange(1 << 30),
+                  stop_after=None) if placer.startswith("sa-") else \
+            dict(seed=rng.randrange(1 << 30)) if placer == "rand" else \
+            dict(breadth_first=rng.random() < .5) if placer == "hilbert" \
+            else {}
         return dict(machine=m, vertices=vs, nets=nets_, constraints=[],
                     placer=placer, kw=kw, easy=True)
     if cls == "alldead":
